@@ -50,7 +50,7 @@ var valueKinds = []string{
 	"[]", "[1,2,3]", "[1,,3]", "[[1],[2]]", `({length:3,0:"a",2:"c"})`, "({length:3000})", `({length:"2",0:1,1:2})`, "({length:2.7,0:1})", "({})", `({a:1,b:{c:2}})`,
 	"Object.freeze({a:1})", "Object.freeze([1,2])", "Object.create(null)",
 	"function(){return 1}", "function(a,b){return this}", "function(){throw new Error('cb')}", "function(){return {}}", "Object", "Array.prototype.push", "eval",
-	"new Date(0)", "new Date(NaN)", "/a/g", "/(a)|b/", "new Error('e')", "new TypeError('t')", "(function(){return arguments})(1,2)",
+	"new Date(0)", "new Date(NaN)", "/a/g", "/(a)|b/", "(function(){var r=/a/g; r.lastIndex=-1; return r})()", "(function(){var r=/a|/g; r.lastIndex=-Infinity; return r})()", "(function(){var r=/a/g; r.lastIndex=1e21; return r})()", "(function(){var r=/a/gm; r.lastIndex={valueOf:function(){return -2}}; return r})()", "new Error('e')", "new TypeError('t')", "(function(){return arguments})(1,2)",
 	`({valueOf:function(){throw new RangeError("v")},toString:function(){throw new RangeError("s")}})`,
 	`({valueOf:function(){return {}},toString:function(){return {}}})`,
 	`({valueOf:function(){return 3},toString:function(){return "x"}})`,
@@ -583,17 +583,22 @@ func runSource(c *run.Ctx, in Input) {
 // ---------------------------------------------------------------- stack limit
 
 var stackShapes = map[string]string{
-	"direct":            "function f(n){return n<=0?0:1+f(n-1)} f(D)",
-	"mutual":            "function a(n){return n<=0?0:1+b(n-1)} function b(n){return n<=0?0:1+a(n-1)} a(D)",
-	"apply":             "function f(n){return n<=0?0:1+f.apply(null,[n-1])} f(D)",
-	"getter":            "var o={n:D,get g(){return this.n--<=0?0:1+this.g}}; o.g",
-	"toString":          "var n=D; var o={toString:function(){return n--<=0?'':'x'+o}}; ''+o",
-	"map":               "function f(n){return n<=0?0:[n-1].map(f)[0]+1} f(D)",
-	"eval":              "function f(n){return n<=0?0:1+eval('f(n-1)')} f(D)",
-	"new":               "function F(n){this.d=n<=0?0:1+new F(n-1).d} new F(D).d",
-	"unbounded":         "function f(){return f()} f()",
-	"unbounded-catch":   "function f(){try{return f()}catch(e){return e instanceof RangeError?'R':'other:'+e}} f()",
-	"unbounded-finally": "var k=0; function f(){try{return f()}finally{k++}} try{f()}catch(e){e instanceof RangeError}",
+	"direct":                  "function f(n){return n<=0?0:1+f(n-1)} f(D)",
+	"mutual":                  "function a(n){return n<=0?0:1+b(n-1)} function b(n){return n<=0?0:1+a(n-1)} a(D)",
+	"apply":                   "function f(n){return n<=0?0:1+f.apply(null,[n-1])} f(D)",
+	"getter":                  "var o={n:D,get g(){return this.n--<=0?0:1+this.g}}; o.g",
+	"toString":                "var n=D; var o={toString:function(){return n--<=0?'':'x'+o}}; ''+o",
+	"map":                     "function f(n){return n<=0?0:[n-1].map(f)[0]+1} f(D)",
+	"eval":                    "function f(n){return n<=0?0:1+eval('f(n-1)')} f(D)",
+	"new":                     "function F(n){this.d=n<=0?0:1+new F(n-1).d} new F(D).d",
+	"indirect-eval":           "var g=eval; function f(n){return n<=0?0:1+g('f('+(n-1)+')')} f(D)",
+	"reenter":                 "function f(n){return n<=0?0:1+reenter('f('+(n-1)+')')} f(D)",
+	"unbounded-indirect-eval": "var g=eval; function f(){return g('f()')} f()",
+	"unbounded-reenter":       "function f(){return reenter('f()')} f()",
+	"unbounded-call-eval":     "function f(){return eval.call(null,'f()')} f()",
+	"unbounded":               "function f(){return f()} f()",
+	"unbounded-catch":         "function f(){try{return f()}catch(e){return e instanceof RangeError?'R':'other:'+e}} f()",
+	"unbounded-finally":       "var k=0; function f(){try{return f()}finally{k++}} try{f()}catch(e){e instanceof RangeError}",
 }
 
 // exportBig exports the large object graphs touch() skips.
@@ -651,16 +656,38 @@ func runStack(c *run.Ctx, in Input) {
 	src := strings.ReplaceAll(stackShapes[in.Shape], "D", fmt.Sprint(in.Depth))
 	vm := otto.New()
 	vm.SetStackDepthLimit(in.Limit)
+	// a host function that re-enters the runtime (nested Run from a callback)
+	reentries := 0
+	vm.Set("reenter", func(call otto.FunctionCall) otto.Value {
+		reentries++
+		if reentries > 20000 {
+			// far beyond every configured limit: the limit is not enforced across
+			// re-entry; stop before the Go stack is exhausted
+			panic(call.Otto.MakeCustomError("HarnessStop", "re-entry ceiling"))
+		}
+		v, err := call.Otto.Run(call.Argument(0).String())
+		if err != nil {
+			if oe, ok := err.(*otto.Error); ok {
+				panic(call.Otto.MakeCustomError(ox.ErrClass(oe), "nested"))
+			}
+			panic(call.Otto.MakeCustomError("Error", err.Error()))
+		}
+		return v
+	})
 	out := ox.Run(vm, src)
 	if out.Panic != nil {
 		c.Fail("panic", "stack:"+in.Shape, in, "value or catchable RangeError", fmt.Sprint(out.Panic), out.Stack)
+		return
+	}
+	if out.Err != nil && ox.ErrClass(out.Err) == "HarnessStop" {
+		c.Fail("mismatch", "stack:"+in.Shape, in, "RangeError at the configured limit", "more than 20000 nested re-entries admitted under limit "+fmt.Sprint(in.Limit), src)
 		return
 	}
 	if out.Err != nil && ox.ErrClass(out.Err) != "RangeError" {
 		c.Fail("mismatch", "stack:"+in.Shape, in, "value or RangeError", out.Err.Error(), src)
 		return
 	}
-	if (in.Shape == "unbounded" || in.Shape == "unbounded-catch") && in.Limit == 1 {
+	if (in.Shape == "unbounded" || in.Shape == "unbounded-catch" || in.Shape == "unbounded-indirect-eval" || in.Shape == "unbounded-reenter" || in.Shape == "unbounded-call-eval") && in.Limit == 1 {
 		// a limit of 1 admits no call at all: the RangeError is raised at the
 		// top-level call site, outside the function's own try
 		if out.Err == nil {
@@ -668,7 +695,7 @@ func runStack(c *run.Ctx, in Input) {
 		}
 	} else if strings.HasPrefix(in.Shape, "unbounded") {
 		switch in.Shape {
-		case "unbounded":
+		case "unbounded", "unbounded-indirect-eval", "unbounded-reenter", "unbounded-call-eval":
 			if out.Err == nil {
 				c.Fail("mismatch", "stack:"+in.Shape, in, "RangeError", out.String(), src)
 			}
